@@ -432,18 +432,30 @@ type jarCookie struct {
 
 type browser struct {
 	jar     map[string]string
-	history []jarCookie // every cookie value ever held
+	scope   map[string][2]string // name → (Domain, Path) the held cookie was set with
+	history []jarCookie          // every cookie value ever held
 }
 
-func newBrowser() *browser { return &browser{jar: map[string]string{}} }
+func newBrowser() *browser { return &browser{jar: map[string]string{}, scope: map[string][2]string{}} }
 
+// apply: like a browser, a cookie is identified by name AND the Domain / Path it was set with: a deletion (or a
+// replacement) written with another Domain or Path is a different cookie and leaves the held one in the jar
 func (b *browser) apply(resp *http.Response) {
 	for _, c := range resp.Cookies() {
+		sc := [2]string{strings.TrimPrefix(c.Domain, "."), c.Path}
 		if c.MaxAge < 0 || (!c.Expires.IsZero() && c.Expires.Before(time.Now())) {
+			if held, ok := b.scope[c.Name]; ok && held != sc {
+				continue
+			}
 			delete(b.jar, c.Name)
+			delete(b.scope, c.Name)
 			continue
 		}
 		b.jar[c.Name] = c.Value
+		if b.scope == nil {
+			b.scope = map[string][2]string{}
+		}
+		b.scope[c.Name] = sc
 		b.history = append(b.history, jarCookie{Name: c.Name, Value: c.Value, Path: c.Path, Domain: c.Domain})
 	}
 }
@@ -465,6 +477,9 @@ func (b *browser) clone() *browser {
 	n := newBrowser()
 	for k, v := range b.jar {
 		n.jar[k] = v
+	}
+	for k, v := range b.scope {
+		n.scope[k] = v
 	}
 	return n
 }
